@@ -72,6 +72,20 @@ class QuantityPoint {
     //      OK : QuantityPoint<Celsius, int> -> QuantityPoint<Milli<Kelvins>, int>
     template <typename OtherUnit, typename OtherRep>
     static constexpr bool should_enable_implicit_construction_from() {
+        return should_enable_implicit_construction_from_impl<OtherUnit, OtherRep>(
+            HasSameDimension<UnitT, OtherUnit>{});
+    }
+
+    // Points of a different dimension are never convertible.  We must answer this before looking at
+    // the origin displacement: that sum (below) is ill-formed when the dimensions differ, which
+    // would turn a mere question (such as `std::is_constructible`) into a hard error.
+    template <typename OtherUnit, typename OtherRep>
+    static constexpr bool should_enable_implicit_construction_from_impl(std::false_type) {
+        return false;
+    }
+
+    template <typename OtherUnit, typename OtherRep>
+    static constexpr bool should_enable_implicit_construction_from_impl(std::true_type) {
         return std::is_convertible<
             decltype(std::declval<typename QuantityPoint<OtherUnit, OtherRep>::Diff>() +
                      origin_displacement(UnitT{}, OtherUnit{})),
